@@ -303,6 +303,13 @@ def check_stmt(name, tier, acc, only=None):
     return n
 
   nsteps = 0
+  if name not in stmtfam.MAY_REJECT:
+    try:
+      t = cls(); t.elaborate()
+    except Exception as ex:
+      acc.violation(f"stmt:elaborate-raised:{name}", dict(base, group="elaborate", seq=0), "a legal design elaborates", f"{type(ex).__name__}: {str(ex)[:160]}", name)
+      acc.count("stmt_designs")
+      return 0
   if name in stmtfam.MAY_REJECT:
     import pymtl3.dsl.errors as dsl_errors
     try:
